@@ -33,7 +33,12 @@ def cases(draw):
             insts.append(dict(insts[draw(st.integers(0, len(insts) - 1))], x=draw(st.integers(0, 100))))  # same comptime args, other runtime arg
         else:
             insts.append({"T": draw(st.sampled_from(TYPES)), "N": draw(st.integers(1, 5)), "K": draw(st.integers(0, 120)), "x": draw(st.integers(0, 100))})
-    return {"steps": steps, "use_n": use_n, "use_k": use_k, "wrap": wrap, "insts": insts, "other_file": draw(st.booleans()), "inline_header": draw(st.booleans())}
+    probes = []
+    for name in ("dependent-value", "runtime-first", "forwarding", "named-const-args"):
+        if draw(st.booleans()):
+            vals = [draw(st.integers(1, 6)) for _ in range(4)]
+            probes.append({"probe": name, "v": vals, "types": [draw(st.sampled_from(TYPES)), draw(st.sampled_from(TYPES))]})
+    return {"steps": steps, "use_n": use_n, "use_k": use_k, "wrap": wrap, "insts": insts, "other_file": draw(st.booleans()), "inline_header": draw(st.booleans()), "probes": probes}
 
 
 def strategy(profile):
@@ -86,6 +91,60 @@ def evaluate(case, inst):
     return acc
 
 
+def probe_parts(pr, generic, ns):
+    """(library lines, main-file lines, call expressions already cast to i64, expected values)"""
+    v = pr["v"]
+    name = pr["probe"]
+    if name == "dependent-value":
+        # the type of a comptime parameter depends on an earlier comptime parameter
+        t1, t2 = pr["types"]
+        T1, T2 = INT_BY_NAME[t1], INT_BY_NAME[t2]
+        exp = [T1.wrap(5 + v[0]), T2.wrap(7 + v[1]), T1.wrap(9 + v[2])]
+        if generic:
+            lib = ["rep :: (comptime T: type, comptime v: T, x: T) -> T { x + v }"]
+            calls = [f"i64.({ns}rep({t1}, {v[0]}, {t1}.(5)))", f"i64.({ns}rep({t2}, {v[1]}, {t2}.(7)))", f"i64.({ns}rep({t1}, {v[2]}, {t1}.(9)))"]
+        else:
+            lib, calls = [], []
+            for k, (t, vv, x) in enumerate(((t1, v[0], 5), (t2, v[1], 7), (t1, v[2], 9))):
+                lib.append(f"rep_{k} :: (x: {t}) -> {t} {{ x + {vv} }}")
+                calls.append(f"i64.(rep_{k}({t}.({x})))")
+        return lib, [], calls, [to_i64(e) for e in exp]
+    if name == "runtime-first":
+        a, b = v[0], v[1] + 6
+        exp = [2 * 100 + a * 10 + b, 1 * 100 + b * 10 + a]
+        if generic:
+            lib = ["rtf :: (x: i64, comptime A: usize, comptime B: usize) -> i64 { a : [A]u8; b : [B]u8; x * 100 + i64.(a.len) * 10 + i64.(b.len) }"]
+            calls = [f"{ns}rtf(2, {a}, {b})", f"{ns}rtf(1, {b}, {a})"]
+        else:
+            lib = [f"rtf_0 :: (x: i64) -> i64 {{ a : [{a}]u8; b : [{b}]u8; x * 100 + i64.(a.len) * 10 + i64.(b.len) }}",
+                   f"rtf_1 :: (x: i64) -> i64 {{ a : [{b}]u8; b : [{a}]u8; x * 100 + i64.(a.len) * 10 + i64.(b.len) }}"]
+            calls = ["rtf_0(2)", "rtf_1(1)"]
+        return lib, [], calls, exp
+    if name == "forwarding":
+        n1, n2 = v[0], v[1] + 6
+        exp = [(10 + n1) + (10 + 2), (10 + n2) + (10 + 2), (11 + n1) + (11 + 2)]
+        if generic:
+            lib = ["inner2 :: (comptime M: usize, v: i64) -> i64 { arr : [M]u8; v + i64.(arr.len) }", "fwd :: (comptime N: usize, x: i64) -> i64 { inner2(N, x) + inner2(2, x) }"]
+            calls = [f"{ns}fwd({n1}, 10)", f"{ns}fwd({n2}, 10)", f"{ns}fwd({n1}, 11)"]
+        else:
+            lib = [f"in2_{m} :: (v: i64) -> i64 {{ arr : [{m}]u8; v + i64.(arr.len) }}" for m in sorted({n1, n2, 2})]
+            lib += [f"fwd_{n} :: (x: i64) -> i64 {{ in2_{n}(x) + in2_2(x) }}" for n in sorted({n1, n2})]
+            calls = [f"fwd_{n1}(10)", f"fwd_{n2}(10)", f"fwd_{n1}(11)"]
+        return lib, [], calls, exp
+    # named-const-args: the comptime argument is a named constant / an alias / a constant of the library file
+    ca, other = v[0] + 1, v[1] + 10
+    exp = [1 + ca, 1 + ca]
+    if generic:
+        lib = [f"CA : usize : {ca};", "CB :: CA;", "ncl :: (comptime N: usize, x: i64) -> i64 { arr : [N]u8; x + i64.(arr.len) }"]
+        # the calling file has a constant of the same name with another value when the library is a file of its own
+        mainl = [f"CA : usize : {other};"] if ns else []
+        calls = [f"{ns}ncl({ns}CB, 1)", f"{ns}ncl({ns}CA, 1)"]
+    else:
+        lib, mainl = [f"ncl_c :: (x: i64) -> i64 {{ arr : [{ca}]u8; x + i64.(arr.len) }}"], []
+        calls = ["ncl_c(1)", "ncl_c(1)"]
+    return lib, mainl, calls, exp
+
+
 def to_i64(v):
     v &= (1 << 64) - 1
     return v - (1 << 64) if v >> 63 else v
@@ -121,8 +180,14 @@ def build(case, generic):
         if case["wrap"] == "distinct" and generic:
             pass
         calls.append(f'    printf("%ld\\n", i64.({call}));')
+    extra_main = []
+    for pr in case.get("probes", []):
+        pl, pm, pc, _ = probe_parts(pr, generic, ns)
+        lib += pl
+        extra_main += pm
+        calls += [f'    printf("%ld\\n", {c});' for c in pc]
     files = {}
-    main = PRELUDE
+    main = PRELUDE + "".join(l + "\n" for l in extra_main)
     if case["other_file"] and generic:
         files["lib.capy"] = "\n".join(lib) + "\n"
         main += 'lib :: #import("lib.capy");\n'
@@ -145,8 +210,18 @@ def build(case, generic):
     return files
 
 
+DEP_XFILE_KEY = "crash:crates/hir_ty/src/globals.rs:index out of bounds: the len is N but the index is N"
+
+
 def check(case, stats, scratch, profile):
-    expected = "".join(f"{to_i64(evaluate(case, inst))}\n" for inst in case["insts"]) + ("41\n" if case["wrap"] != "plain" else "")
+    if case.get("other_file") and not case.get("force") and any(f.get("status") == "open" and f["key"] == DEP_XFILE_KEY for f in core.load_findings("C16")):
+        # listed open finding: a generic with a dependent comptime parameter type defined in another file panics
+        case = dict(case, probes=[pr for pr in case.get("probes", []) if pr["probe"] != "dependent-value"])
+    expected = "".join(f"{to_i64(evaluate(case, inst))}\n" for inst in case["insts"])
+    for pr in case.get("probes", []):
+        expected += "".join(f"{e}\n" for e in probe_parts(pr, True, "")[3])
+        stats.cls("probe." + pr["probe"])
+    expected += "41\n" if case["wrap"] != "plain" else ""
     gfiles = build(case, True)
     tfiles = build(case, False)
     stats.evaluations += 1
@@ -187,7 +262,8 @@ def replay_payload(payload, scratch):
 
 RULE = ("generic function with comptime T (type), optional comptime N (array size / loop bound) and K (value), body of 1-5 steps (loop to N, [N]T array fill, +K, nested generic "
         "call, xor, shift, conditional), inline header reference, optionally in an imported file; plus an identity generic over a distinct / struct type; 1-4 instantiations with "
-        "equal and different comptime arguments. Non-trivial = >= 2 different argument tuples and a non-type comptime parameter or nested generic call; distinct by case.")
+        "equal and different comptime arguments; optional probes: a comptime parameter whose type is an earlier comptime parameter, run-time parameter before the comptime ones, "
+        "a comptime parameter forwarded to a nested generic, named constants / aliases / library constants as comptime arguments. Non-trivial = >= 2 different argument tuples and a non-type comptime parameter or nested generic call; distinct by case.")
 
 
 def run(ctx):
